@@ -22,11 +22,13 @@ import (
 	"encoding/base64"
 	"encoding/binary"
 	"fmt"
+	"math/big"
 	"net/url"
 	"os"
 	"path/filepath"
 	"runtime/debug"
 	"sort"
+	"strconv"
 	"strings"
 	"sync"
 	"testing"
@@ -43,10 +45,18 @@ import (
 
 // Mut is one structural mutation of the ciphertext tree.
 type Mut struct {
-	Op     string `json:"op"`     // remove | dup | dupalt | nest | attr | rmattr | text | b64 | comment | cdata | child | rename | space | keychain | moveout | movein | retrieval | setid | addkey | reflist
+	Op     string `json:"op"`     // remove | dup | dupalt | nest | attr | rmattr | text | b64 | comment | cdata | child | keysize | rename | space | keychain | moveout | movein | retrieval | setid | addkey | reflist
 	Target string `json:"target"` // data | data.em | data.ki | data.cd | data.cv | key | key.em | key.dm | key.ki | key.x509 | key.cd | key.cv
 	Arg    string `json:"arg,omitempty"`
 	N      int    `json:"n,omitempty"`
+}
+
+// EMChild is one optional / unexpected piece of content put into an xenc:EncryptionMethod.
+type EMChild struct {
+	Tag   string `json:"tag"`            // keysize | foreign-keysize | oaepparams | digest | mgf | unknown | text | comment
+	Val   string `json:"val,omitempty"`  // text of the child (keysize: the declared size in bits, as written)
+	Form  string `json:"form,omitempty"` // how Val is carried: "" text | cdata | split (text, comment, text) | nested (inside a child element) | attr (in an attribute, no text)
+	First bool   `json:"first,omitempty"` // placed before what EncryptionMethod already holds (else appended)
 }
 
 // BMut is one byte-level mutation of an XML document (kind xml).
@@ -59,7 +69,7 @@ type BMut struct {
 
 // Case is one attacked ciphertext.
 type Case struct {
-	Kind  string `json:"kind"`  // control | len | pad | gcm | cert | plain | retr | refs | keysize | mut | xml
+	Kind  string `json:"kind"`  // control | len | pad | gcm | cert | plain | retr | refs | keysize | emchild | mut | xml
 	Entry string `json:"entry"` // decrypt | decrypt-key | sp
 
 	Block     string `json:"block,omitempty"`     // aes128-cbc | aes192-cbc | aes256-cbc | tripledes-cbc | aes128-gcm
@@ -114,6 +124,11 @@ type Case struct {
 	RefList       string `json:"ref_list,omitempty"`
 	SecondRefList string `json:"second_ref_list,omitempty"`
 	DataIDMode    string `json:"data_id_mode,omitempty"` // Id attribute of EncryptedData: "" (present) | absent | empty
+	// any kind (always for kind emchild): optional / unexpected content of EncryptedData/EncryptionMethod (DataEM)
+	// and of EncryptedKey/EncryptionMethod (KeyEM): xenc:KeySize with any text, xenc:OAEPparams, further
+	// DigestMethod / MGF, unknown and foreign children, text, comments; repeated children.
+	DataEM []EMChild `json:"data_em,omitempty"`
+	KeyEM  []EMChild `json:"key_em,omitempty"`
 	// sp entry: configuration of the ServiceProvider the clause does not mention
 	SPAllowIDPInitiated bool `json:"sp_allow_idp_initiated,omitempty"`
 	// kind mut
@@ -538,7 +553,177 @@ func (c Case) build() (*tree, error) {
 	if c.HasURI {
 		t.addRetrieval(c.URI, true)
 	}
+	// last, so that everything above still reads the EncryptionMethod the reference wrote
+	for _, ch := range c.DataEM {
+		t.addEMChild(data.FindElement("./EncryptionMethod"), ch)
+	}
+	if key != nil {
+		for _, ch := range c.KeyEM {
+			t.addEMChild(key.FindElement("./EncryptionMethod"), ch)
+		}
+	}
 	return t, nil
+}
+
+var emTags = []string{"keysize", "foreign-keysize", "oaepparams", "digest", "mgf", "unknown", "text", "comment"}
+
+// addEMChild puts one piece of optional / unexpected content into an EncryptionMethod.
+func (t *tree) addEMChild(em *etree.Element, ch EMChild) bool {
+	if em == nil {
+		return false
+	}
+	var tok etree.Token
+	carry := func(e *etree.Element) {
+		switch ch.Form {
+		case "cdata":
+			e.SetCData(ch.Val)
+		case "split":
+			k := len(ch.Val) / 2
+			for k > 0 && k < len(ch.Val) && ch.Val[k]&0xC0 == 0x80 {
+				k--
+			}
+			e.CreateText(ch.Val[:k])
+			e.CreateComment("c")
+			e.CreateText(ch.Val[k:])
+		case "nested":
+			e.CreateElement(t.opt.XencTag("x")).SetText(ch.Val)
+		case "attr":
+			e.CreateAttr("Value", ch.Val)
+		default:
+			e.SetText(ch.Val)
+		}
+	}
+	switch ch.Tag {
+	case "keysize":
+		e := etree.NewElement(t.opt.XencTag("KeySize"))
+		carry(e)
+		tok = e
+	case "foreign-keysize": // same local name, another namespace
+		e := etree.NewElement("foo:KeySize")
+		e.CreateAttr("xmlns:foo", "urn:example:foreign")
+		carry(e)
+		tok = e
+	case "oaepparams":
+		e := etree.NewElement(t.opt.XencTag("OAEPparams"))
+		carry(e)
+		tok = e
+	case "digest":
+		e := etree.NewElement("dsx:DigestMethod")
+		e.CreateAttr("xmlns:dsx", refenc.NSDsig)
+		e.CreateAttr("Algorithm", ch.Val)
+		tok = e
+	case "mgf":
+		e := etree.NewElement("xenc11x:MGF")
+		e.CreateAttr("xmlns:xenc11x", "http://www.w3.org/2009/xmlenc11#")
+		e.CreateAttr("Algorithm", ch.Val)
+		tok = e
+	case "unknown":
+		e := etree.NewElement(t.opt.XencTag("x"))
+		carry(e)
+		tok = e
+	case "text":
+		if ch.Form == "cdata" {
+			tok = etree.NewCData(ch.Val)
+		} else {
+			tok = etree.NewText(ch.Val)
+		}
+	case "comment":
+		tok = etree.NewComment(strings.ReplaceAll(ch.Val, "-", "_"))
+	default:
+		return false
+	}
+	if ch.First {
+		em.InsertChildAt(0, tok)
+	} else {
+		em.AddChild(tok)
+	}
+	return true
+}
+
+// keySizeClass puts the text of a KeySize child into a class relative to the real size (in bits) of
+// the key the algorithm prescribes (histogram and the judged / don't-care split only).
+func keySizeClass(val string, exactBits int) string {
+	v := strings.TrimSpace(val)
+	if v == "" {
+		return "empty"
+	}
+	n, ok := new(big.Int).SetString(v, 10)
+	if !ok {
+		return "non-numeric"
+	}
+	switch {
+	case n.Sign() < 0:
+		return "negative"
+	case n.Sign() == 0:
+		return "zero"
+	case !n.IsInt64() || n.Int64() > 1<<20:
+		return "huge"
+	case n.Int64() < int64(exactBits):
+		return "smaller"
+	case n.Int64() == int64(exactBits):
+		return "exact"
+	}
+	return "larger"
+}
+
+// keySizeJudged: the must-reject classes and the reference-plaintext comparison are applied only
+// when no KeySize is present or every KeySize of EncryptedData/EncryptionMethod is, literally, the
+// real size of the declared algorithm's key; any other KeySize (and any KeySize on the
+// EncryptedKey's method, where the property gives it no meaning) leaves totality only.
+func (c Case) keySizeJudged() bool {
+	exact := strconv.Itoa(spec(c.Block).KeyLen * 8)
+	for _, ch := range c.DataEM {
+		if (ch.Tag == "keysize" || ch.Tag == "foreign-keysize") && (ch.Val != exact || ch.Form != "") {
+			return false
+		}
+	}
+	for _, ch := range c.KeyEM {
+		if ch.Tag == "keysize" || ch.Tag == "foreign-keysize" {
+			return false
+		}
+	}
+	for _, m := range c.Muts {
+		if m.Op == "keysize" {
+			return false
+		}
+	}
+	return true
+}
+
+// emClasses: histogram names of the EncryptionMethod-content dimension.
+func (c Case) emClasses() []string {
+	var cl []string
+	exact := spec(c.Block).KeyLen * 8
+	for _, side := range []struct {
+		name string
+		list []EMChild
+	}{{"data", c.DataEM}, {"key", c.KeyEM}} {
+		nks := 0
+		for _, ch := range side.list {
+			cl = append(cl, "em-"+side.name+":"+ch.Tag)
+			if ch.Form != "" {
+				cl = append(cl, "em-form:"+ch.Form)
+			}
+			if ch.Tag == "keysize" || ch.Tag == "foreign-keysize" {
+				nks++
+				cl = append(cl, "keysize-"+side.name+":"+keySizeClass(ch.Val, exact))
+			}
+		}
+		if nks > 1 {
+			cl = append(cl, "em-"+side.name+":keysize-repeated")
+		}
+		if len(side.list) > 1 {
+			cl = append(cl, "em-"+side.name+":several-children")
+		}
+	}
+	if len(c.DataEM)+len(c.KeyEM) > 0 {
+		if c.keySizeJudged() {
+			cl = append(cl, "keysize:absent-or-exact(judged)")
+		} else {
+			cl = append(cl, "dont-care:keysize-not-exact")
+		}
+	}
+	return cl
 }
 
 // addRetrieval puts a ds:RetrievalMethod into EncryptedData/KeyInfo (creating the KeyInfo).
@@ -741,6 +926,11 @@ func (t *tree) apply(m Mut, seed []byte) bool {
 		el.SetCData(el.Text())
 	case "child":
 		el.InsertChildAt(0, etree.NewElement(t.opt.XencTag("x")))
+	case "keysize": // xenc:KeySize with text Arg inside the target EncryptionMethod (N odd: first)
+		if el.Tag != "EncryptionMethod" {
+			return false
+		}
+		return t.addEMChild(el, EMChild{Tag: "keysize", Val: m.Arg, First: m.N%2 == 1})
 	case "rename":
 		el.Tag = m.Arg
 	case "space":
@@ -935,6 +1125,12 @@ func (c Case) describe() string {
 	} else {
 		s += fmt.Sprintf(" spkey=%s allow-idp-initiated=%v sibling=%v plaintext=%s", c.SPKey, c.SPAllowIDPInitiated, c.Sibling, c.PlainKind)
 	}
+	if len(c.DataEM) > 0 {
+		s += fmt.Sprintf(" EncryptedData/EncryptionMethod-content=%+v", c.DataEM)
+	}
+	if len(c.KeyEM) > 0 {
+		s += fmt.Sprintf(" EncryptedKey/EncryptionMethod-content=%+v", c.KeyEM)
+	}
 	switch c.Kind {
 	case "len":
 		s += fmt.Sprintf(" cipher-value=%d octets on-key=%v", len(c.CipherValue), c.OnKey)
@@ -1004,8 +1200,31 @@ func wellFormed(c Case) bool {
 			return false
 		}
 	}
+	if len(c.DataEM) > 8 || len(c.KeyEM) > 8 || (len(c.KeyEM) > 0 && c.Transport == "direct") {
+		return false
+	}
+	for _, l := range [][]EMChild{c.DataEM, c.KeyEM} {
+		for _, ch := range l {
+			okTag := false
+			for _, tg := range emTags {
+				okTag = okTag || tg == ch.Tag
+			}
+			switch ch.Form {
+			case "", "cdata", "split", "nested", "attr":
+			default:
+				okTag = false
+			}
+			if !okTag || len(ch.Val) > 600 {
+				return false
+			}
+		}
+	}
 	switch c.Kind {
 	case "control", "len", "plain", "mut":
+	case "emchild":
+		if len(c.DataEM)+len(c.KeyEM) == 0 {
+			return false
+		}
 	case "keysize":
 		as, ok := refenc.Spec(actualURI(c.ActualAlg))
 		if !ok || as.GCM != s.GCM {
@@ -1051,7 +1270,7 @@ func wellFormed(c Case) bool {
 // is structurally what refenc built, the right key is handed over and the wrapped key
 // is the content key.
 func (c Case) intact() bool {
-	if c.Kind == "mut" || c.Kind == "xml" || c.Kind == "retr" || c.Kind == "refs" || c.Kind == "keysize" || c.RefList != "" || c.SecondRefList != "" || c.DataIDMode != "" || c.HasURI || c.HasKeyID || c.SecondKey != "" || len(c.Muts) > 0 || c.HasWrappedKey || (c.Kind == "len" && c.OnKey) {
+	if c.Kind == "mut" || c.Kind == "xml" || c.Kind == "retr" || c.Kind == "refs" || c.Kind == "keysize" || c.RefList != "" || c.SecondRefList != "" || c.DataIDMode != "" || c.HasURI || c.HasKeyID || c.SecondKey != "" || len(c.Muts) > 0 || c.HasWrappedKey || (c.Kind == "len" && c.OnKey) || !c.keySizeJudged() {
 		return false
 	}
 	// Whether the package manages to unwrap the key at all (digest / MGF reading) is
@@ -1185,6 +1404,7 @@ func check(c Case) pbt.Result {
 	if c.DataIDMode != "" {
 		cl = append(cl, "data-id:"+c.DataIDMode)
 	}
+	cl = append(cl, c.emClasses()...)
 	if c.Entry == "decrypt-key" && t.key == nil {
 		return pbt.Result{Skip: true}
 	}
@@ -1291,7 +1511,7 @@ func check(c Case) pbt.Result {
 
 		// a key whose size is not the size of the DECLARED algorithm => must reject, whatever
 		// else that size would be right for (the tree is structurally what the reference built)
-		if c.Entry == "decrypt" && c.Kind != "mut" && c.Kind != "xml" && len(c.Muts) == 0 {
+		if c.Entry == "decrypt" && c.Kind != "mut" && c.Kind != "xml" && len(c.Muts) == 0 && c.keySizeJudged() {
 			want := spec(c.Block).KeyLen
 			wrongDirect := c.Transport == "direct" && c.KeyKind == "bytes" && len(c.KeyBytes) != want
 			wrongWrapped := c.Transport != "direct" && c.KeyKind == "rsa-ptr" && c.HasWrappedKey && len(c.WrappedKey) != want
@@ -1546,6 +1766,7 @@ func checkXML(c Case) pbt.Result {
 	cl := []string{"kind:xml", "entry:decrypt", "key:" + c.KeyKind}
 	if c.File == "gen" {
 		cl = append(cl, "xml:generated")
+		cl = append(cl, c.emClasses()...)
 	} else {
 		cl = append(cl, "xml:repository-file")
 	}
@@ -1680,7 +1901,7 @@ func genFragment(t *rapid.T, label string, withHash bool) string {
 func genMut(t *rapid.T, i int) Mut {
 	l := fmt.Sprintf("m%d-", i)
 	m := Mut{Target: rapid.SampledFrom(roles).Draw(t, l+"target")}
-	m.Op = rapid.SampledFrom([]string{"remove", "dup", "dupalt", "nest", "attr", "attr", "attr", "rmattr", "text", "b64", "b64", "comment", "cdata", "child", "rename", "space", "keychain", "moveout", "movein", "retrieval", "retrieval", "setid", "addkey", "reflist"}).Draw(t, l+"op")
+	m.Op = rapid.SampledFrom([]string{"remove", "dup", "dupalt", "nest", "attr", "attr", "attr", "rmattr", "text", "b64", "b64", "comment", "cdata", "child", "keysize", "keysize", "rename", "space", "keychain", "moveout", "movein", "retrieval", "retrieval", "setid", "addkey", "reflist"}).Draw(t, l+"op")
 	switch m.Op {
 	case "attr", "dupalt", "keychain":
 		m.Arg = rapid.SampledFrom(algPool).Draw(t, l+"alg")
@@ -1688,6 +1909,10 @@ func genMut(t *rapid.T, i int) Mut {
 			m.Arg = rapid.SampledFrom(algPool[:9]).Draw(t, l+"chain-alg")
 			m.N = rapid.IntRange(1, 60).Draw(t, l+"n")
 		}
+	case "keysize":
+		m.Target = rapid.SampledFrom([]string{"data.em", "data.em", "key.em"}).Draw(t, l+"em-target")
+		m.Arg = genKeySizeText(t, l+"keysize", 128)
+		m.N = rapid.IntRange(0, 1).Draw(t, l+"n")
 	case "retrieval":
 		m.Target = "data"
 		m.Arg = genFragment(t, l+"uri", true)
@@ -1717,15 +1942,93 @@ func genMut(t *rapid.T, i int) Mut {
 	return m
 }
 
+var keySizeHuge = []string{"2147483640", "2147483647", "2147483648", "4294967296", "4294967304", "9223372036854775800", "9223372036854775807", "9223372036854775808",
+	"-2147483648", "-9223372036854775808", "18446744073709551616", "1" + strings.Repeat("0", 40), "-1" + strings.Repeat("0", 40)}
+
+var keySizeNonNumeric = []string{"", " ", "\n", "x", "128x", "0x80", "1e3", "12.5", "+128", "128 ", " 256", "\n192\n", "-", "--8", "1_28", "١٢٨", "NaN", "128 128", "0128", "-0"}
+
+// genKeySizeText draws the text of a KeySize child: every class relative to the real key size.
+func genKeySizeText(t *rapid.T, label string, exactBits int) string {
+	switch rapid.IntRange(0, 11).Draw(t, label+"-class") {
+	case 0, 1:
+		return strconv.Itoa(exactBits)
+	case 2: // the size of another variant
+		return strconv.Itoa(rapid.SampledFrom([]int{64, 128, 168, 192, 256, 384, 512}).Draw(t, label+"-variant"))
+	case 3:
+		return strconv.Itoa(-8 * rapid.IntRange(1, 1<<16).Draw(t, label+"-neg8"))
+	case 4:
+		return strconv.Itoa(-rapid.IntRange(1, 1<<20).Draw(t, label+"-neg"))
+	case 5:
+		return "0"
+	case 6:
+		return strconv.Itoa(rapid.IntRange(1, exactBits-1).Draw(t, label+"-small"))
+	case 7:
+		return strconv.Itoa(exactBits + rapid.IntRange(1, 4096).Draw(t, label+"-larger"))
+	case 8:
+		return strconv.Itoa(8 * rapid.IntRange(exactBits/8+1, 1<<14).Draw(t, label+"-larger8"))
+	case 9:
+		return rapid.SampledFrom(keySizeHuge).Draw(t, label+"-huge")
+	case 10:
+		return strconv.Itoa(exactBits + 8*rapid.IntRange(-2, 2).Draw(t, label+"-near"))
+	}
+	return rapid.SampledFrom(keySizeNonNumeric).Draw(t, label+"-nan")
+}
+
+func genEMChildren(t *rapid.T, label string, exactBits int) []EMChild {
+	n := rapid.SampledFrom([]int{1, 1, 1, 2, 2, 3}).Draw(t, label+"-n")
+	var out []EMChild
+	for i := 0; i < n; i++ {
+		l := fmt.Sprintf("%s%d-", label, i)
+		ch := EMChild{Tag: rapid.SampledFrom([]string{"keysize", "keysize", "keysize", "keysize", "keysize", "foreign-keysize", "oaepparams", "oaepparams", "digest", "mgf", "unknown", "text", "comment"}).Draw(t, l+"tag")}
+		ch.First = rapid.Bool().Draw(t, l+"first")
+		switch ch.Tag {
+		case "keysize", "foreign-keysize":
+			ch.Val = genKeySizeText(t, l+"keysize", exactBits)
+		case "oaepparams":
+			ch.Val = rapid.SampledFrom([]string{"", "AAAA", "9lWu3Q==", "bGFiZWw=", "!!!", "=", "AAA", strings.Repeat("QUJD", 100)}).Draw(t, l+"params")
+		case "digest", "mgf":
+			ch.Val = rapid.SampledFrom(algPool).Draw(t, l+"alg")
+		default:
+			ch.Val = rapid.SampledFrom([]string{"", " ", "x", "128", "\n  ", "<&>", strings.Repeat("y", 300)}).Draw(t, l+"text")
+		}
+		if ch.Tag != "digest" && ch.Tag != "mgf" && ch.Tag != "comment" {
+			ch.Form = rapid.SampledFrom([]string{"", "", "", "", "cdata", "split", "nested", "attr"}).Draw(t, l+"form")
+			if ch.Tag == "text" && ch.Form != "cdata" {
+				ch.Form = ""
+			}
+		}
+		out = append(out, ch)
+	}
+	return out
+}
+
+// genEM draws the EncryptionMethod-content dimension for the data and / or the key element.
+func genEM(t *rapid.T, c *Case) {
+	exact := spec(c.Block).KeyLen * 8
+	where := "data"
+	if c.Transport != "direct" {
+		where = rapid.SampledFrom([]string{"data", "data", "key", "both"}).Draw(t, "em-where")
+	}
+	if where != "key" {
+		c.DataEM = genEMChildren(t, "em-data", exact)
+	}
+	if where != "data" {
+		c.KeyEM = genEMChildren(t, "em-key", exact)
+	}
+}
+
 func gen(t *rapid.T) Case {
 	var c Case
-	c.Kind = rapid.SampledFrom([]string{"len", "len", "len", "pad", "pad", "gcm", "gcm", "cert", "plain", "retr", "retr", "refs", "refs", "keysize", "keysize", "mut", "mut", "mut", "mut", "xml", "xml", "control"}).Draw(t, "kind")
+	c.Kind = rapid.SampledFrom([]string{"len", "len", "len", "pad", "pad", "gcm", "gcm", "cert", "plain", "retr", "retr", "refs", "refs", "keysize", "keysize", "emchild", "emchild", "emchild", "mut", "mut", "mut", "mut", "xml", "xml", "control"}).Draw(t, "kind")
 	if c.Kind == "xml" {
 		c.Entry = "decrypt"
 		files := append([]string{"gen", "gen", "gen"}, corpusFiles()...)
 		c.File = rapid.SampledFrom(files).Draw(t, "file")
 		if c.File == "gen" {
 			genBase(t, &c)
+			if rapid.IntRange(0, 3).Draw(t, "with-em") == 0 {
+				genEM(t, &c)
+			}
 		}
 		genKeyKind(t, &c)
 		if c.KeyKind == "content" && c.File != "gen" {
@@ -1764,6 +2067,10 @@ func gen(t *rapid.T) Case {
 		}
 	}
 	genEntry(t, &c)
+	// optional / unexpected content of the EncryptionMethod elements: always for kind emchild, now and then for every other kind
+	if c.Kind == "emchild" || rapid.IntRange(0, 4).Draw(t, "with-em") == 0 {
+		genEM(t, &c)
+	}
 	if c.Kind == "keysize" {
 		// a key of a size that is valid for ANOTHER variant of the family, and a ciphertext that
 		// really opens under it
@@ -2226,6 +2533,89 @@ func enumKeySizes(_ string, emit func(Case)) {
 	}
 }
 
+// KeySize texts of every class (and the other optional children) x every block cipher x every key
+// transport x EncryptedData / EncryptedKey / both x Decrypt, Decrypt(EncryptedKey) and the SP in both layouts
+func enumEMChildren(_ string, emit func(Case)) {
+	i := 0
+	for _, b := range blocks {
+		exact := spec(b).KeyLen * 8
+		vals := []string{strconv.Itoa(exact), strconv.Itoa(exact - 8), strconv.Itoa(exact + 8), strconv.Itoa(exact + 1), strconv.Itoa(2 * exact), strconv.Itoa(8 * exact),
+			"-1", "-8", "-128", "-" + strconv.Itoa(exact), "0", "1", "7", "8", "64", "128", "168", "192", "256", "512", "4096", "65536", "1000000"}
+		vals = append(vals, keySizeHuge...)
+		vals = append(vals, keySizeNonNumeric...)
+		var lists [][]EMChild
+		for _, v := range vals {
+			lists = append(lists, []EMChild{{Tag: "keysize", Val: v}})
+		}
+		ex := strconv.Itoa(exact)
+		lists = append(lists,
+			[]EMChild{{Tag: "keysize", Val: ex}, {Tag: "keysize", Val: ex}},
+			[]EMChild{{Tag: "keysize", Val: ex}, {Tag: "keysize", Val: "4096"}},
+			[]EMChild{{Tag: "keysize", Val: "4096", First: true}, {Tag: "keysize", Val: ex}},
+			[]EMChild{{Tag: "keysize", Val: "-8"}, {Tag: "keysize", Val: "x"}, {Tag: "keysize", Val: ex}},
+			[]EMChild{{Tag: "foreign-keysize", Val: "4096"}},
+			[]EMChild{{Tag: "foreign-keysize", Val: "-8", First: true}},
+			[]EMChild{{Tag: "keysize", Val: "4096", Form: "cdata"}},
+			[]EMChild{{Tag: "keysize", Val: "4096", Form: "split"}},
+			[]EMChild{{Tag: "keysize", Val: "4096", Form: "nested"}},
+			[]EMChild{{Tag: "keysize", Val: "4096", Form: "attr"}},
+			[]EMChild{{Tag: "keysize", Val: ex, Form: "split"}},
+			[]EMChild{{Tag: "oaepparams", Val: ""}},
+			[]EMChild{{Tag: "oaepparams", Val: "bGFiZWw="}},
+			[]EMChild{{Tag: "oaepparams", Val: "!!!", First: true}},
+			[]EMChild{{Tag: "oaepparams", Val: "bGFiZWw="}, {Tag: "oaepparams", Val: "AAAA"}},
+			[]EMChild{{Tag: "oaepparams", Val: strings.Repeat("QUJD", 100)}, {Tag: "keysize", Val: ex}},
+			[]EMChild{{Tag: "digest", Val: refenc.LibDigestSHA256, First: true}},
+			[]EMChild{{Tag: "digest", Val: "x"}},
+			[]EMChild{{Tag: "mgf", Val: refenc.MGF1SHA1, First: true}},
+			[]EMChild{{Tag: "mgf", Val: ""}},
+			[]EMChild{{Tag: "unknown", Val: "x", First: true}},
+			[]EMChild{{Tag: "unknown", Val: "x"}, {Tag: "unknown", Val: "y"}},
+			[]EMChild{{Tag: "text", Val: "128", First: true}},
+			[]EMChild{{Tag: "text", Val: " x ", Form: "cdata"}},
+			[]EMChild{{Tag: "comment", Val: "KeySize", First: true}, {Tag: "keysize", Val: ex}},
+		)
+		for li, l := range lists {
+			for _, tr := range []tcombo{{"direct", ""}, {"oaep-mgf1p", "sha1"}, {"oaep11", "sha256"}, {"pkcs1", ""}} {
+				id := fmt.Sprintf("emchild/%s/%d/%s", b, li, tr.transport)
+				mk := func(entry string, sib bool, where string) {
+					c := baseCase("emchild", entry, b, tr.transport, tr.digest, id)
+					c.Sibling = sib
+					if where != "key" {
+						c.DataEM = l
+					}
+					if where != "data" {
+						c.KeyEM = l
+					}
+					switch {
+					case entry == "sp":
+					case tr.transport == "direct":
+						c.KeyKind = "content"
+					default:
+						c.KeyKind = "rsa-ptr"
+					}
+					c.XencPrefix, c.DsPrefix = spellAt(i)
+					c.Reparse = i%2 == 0
+					i++
+					emit(c)
+				}
+				if tr.transport == "direct" {
+					mk("decrypt", false, "data")
+					continue
+				}
+				mk("decrypt", false, "data")
+				mk("decrypt", false, "key")
+				mk("decrypt-key", false, "key")
+				if tr.transport == "oaep11" && li%4 != 0 {
+					continue // thin out the slower SP path
+				}
+				mk("sp", false, "data")
+				mk("sp", true, "both")
+			}
+		}
+	}
+}
+
 // EncryptionMethod / DigestMethod present twice (identical, or a differing copy first)
 func enumDupMethods(_ string, emit func(Case)) {
 	i := 0
@@ -2280,7 +2670,7 @@ func enumFiles(_ string, emit func(Case)) {
 
 var prop = &pbt.Prop[Case]{
 	ID: "C11",
-	Rule: "cases: reference-built EncryptedData/EncryptedKey trees (5 block ciphers x direct / rsa-oaep-mgf1p / xmlenc11 rsa-oaep / PKCS#1 key transport, nested or sibling key) damaged by one of {replaced cipher value of chosen length, CBC value with chosen final decrypted octet, modified GCM value, embedded-certificate variant, attacker-chosen plaintext shape, ds:RetrievalMethod with benign and hostile URIs (quotes, brackets, path and query metacharacters) x namespace spelling of the document (xenc:/ds:, other prefixes, default namespace, independently for xmlenc and xmldsig) x several sibling EncryptedKeys with ReferenceList/DataReference (URI absent / empty / # / matching / other) x EncryptedData Id (present / absent / empty), keys of a size valid for another variant with ciphertexts that open under that variant, x EncryptedKey Id attributes (fixed / exactly the fragment / hostile / absent) x one or two recipients' keys, 1-4 structural mutations (remove/duplicate/nest/rename elements, added RetrievalMethod / Id attributes / second EncryptedKey, Algorithm attribute edits, bad base64, comments/CDATA/children inside CipherValue, chains of nested EncryptedKey, moved keys), byte mutations of repository corpus documents and of generated documents}, presented to xmlenc.Decrypt with keys of every Go type ([]byte of 0..40 octets, *rsa.PrivateKey, rsa.PrivateKey, *ecdsa.PrivateKey, string, int, nil) and to ServiceProvider.ParseXMLResponse inside an unsigned Response. " +
+	Rule: "cases: reference-built EncryptedData/EncryptedKey trees (5 block ciphers x direct / rsa-oaep-mgf1p / xmlenc11 rsa-oaep / PKCS#1 key transport, nested or sibling key) damaged by one of {replaced cipher value of chosen length, CBC value with chosen final decrypted octet, modified GCM value, embedded-certificate variant, attacker-chosen plaintext shape, ds:RetrievalMethod with benign and hostile URIs (quotes, brackets, path and query metacharacters) x namespace spelling of the document (xenc:/ds:, other prefixes, default namespace, independently for xmlenc and xmldsig) x several sibling EncryptedKeys with ReferenceList/DataReference (URI absent / empty / # / matching / other) x EncryptedData Id (present / absent / empty), keys of a size valid for another variant with ciphertexts that open under that variant, optional / unexpected content of EncryptionMethod on the EncryptedData and / or the EncryptedKey (xenc:KeySize whose text is negative / 0 / smaller / exactly the key size in bits / larger / huge / non-numeric / empty, carried as text, CDATA, split by a comment, in a nested element or in an attribute, the same local name in a foreign namespace, xenc:OAEPparams, further DigestMethod / MGF, unknown children, text, comments, each possibly repeated, before or after the existing children; alone as kind emchild and in one of five cases of every other kind), x EncryptedKey Id attributes (fixed / exactly the fragment / hostile / absent) x one or two recipients' keys, 1-4 structural mutations (remove/duplicate/nest/rename elements, added RetrievalMethod / Id attributes / second EncryptedKey, Algorithm attribute edits, bad base64, comments/CDATA/children inside CipherValue, chains of nested EncryptedKey, moved keys), byte mutations of repository corpus documents and of generated documents}, presented to xmlenc.Decrypt with keys of every Go type ([]byte of 0..40 octets, *rsa.PrivateKey, rsa.PrivateKey, *ecdsa.PrivateKey, string, int, nil) and to ServiceProvider.ParseXMLResponse inside an unsigned Response. " +
 		"non-trivial: the element handed over still reaches a registered decrypter (EncryptionMethod/@Algorithm registered, CipherData/CipherValue present) and the case is not an unmodified control. distinct: sha256 of the JSON case.",
 	Gen:   gen,
 	Check: check,
@@ -2296,6 +2686,7 @@ var prop = &pbt.Prop[Case]{
 		{Name: "sibling-keys-x-datareference-uris-x-data-id", Each: enumRefs},
 		{Name: "key-sizes-of-another-variant", Each: enumKeySizes},
 		{Name: "duplicated-encryptionmethod-digestmethod", Each: enumDupMethods},
+		{Name: "encryptionmethod-keysize-and-optional-children-x-ciphers-x-transports", Each: enumEMChildren},
 		{Name: "repository-documents-x-key-types", Each: enumFiles},
 	},
 	Assumptions: []string{
@@ -2305,6 +2696,7 @@ var prop = &pbt.Prop[Case]{
 		"the certificate/key consistency rule is judged only for a certificate at EncryptedKey/KeyInfo/X509Data/X509Certificate and a *rsa.PrivateKey key; it is judged whatever prefix (or default namespace) the document binds to xmldsig / xmlenc",
 		"through the SP entry every case must end in an error because nothing in it is signed (with AllowIDPInitiated on or off, RSA or EC SP key)",
 		"a key ([]byte handed over directly, or unwrapped from an intact EncryptedKey) whose size differs from the size the DECLARED block algorithm prescribes must be rejected, in particular 16/24/32 (8/24 for 3DES) octets that would be right for another variant; keys of a wrong Go type are judged for totality only",
+		"content of EncryptionMethod other than the Algorithm attribute is judged for totality on every input; the must-reject classes and the reference-plaintext comparison are applied unchanged when no KeySize is present or every KeySize of EncryptedData/EncryptionMethod is literally the declared algorithm's key size in bits (128/192/256; 192 for 3DES), and are don't-care for any other KeySize text, for a KeySize in a foreign namespace with another value and for any KeySize on the EncryptedKey's EncryptionMethod (through the SP entry everything must still end in an error)",
 		"which EncryptedKey a RetrievalMethod or a ReferenceList/DataReference selects is not judged (the property is silent); only totality and the must-reject classes are",
 		"corpus documents are read from <repo>/xmlenc/{corpus,testdata}/*.xml at run time",
 	},
